@@ -276,6 +276,11 @@ where
 
         anyhow::ensure!(log_delta <= Self::max_log_delta_prec());
         anyhow::ensure!(self.0.len() == other.n().as_usize());
+        anyhow::ensure!(
+            other.size() > 0,
+            "cannot quantize into a plaintext without limbs (log_delta + log_budget = {})",
+            log_delta + log_budget
+        );
 
         let scale = F::from_usize(log_delta).unwrap().exp2();
         let k = other.max_k();
